@@ -6,7 +6,7 @@ export GOFLAGS=-mod=mod GOPROXY=off GOWORK=off
 unset GOSUMDB || true
 mkdir -p .cache evidence replays harness/bin
 python3 genregistry.py
-if [ -f extract/extract.py ]; then python3 extract/extract.py "${VERIF_REPO:-/repo}" lean/PCV/Gen; fi
+(cd extract && GOTOOLCHAIN=local go build -o extract . && ./extract "${VERIF_REPO:-/repo}" ../lean/PCV/Gen)
 cp "${VERIF_REPO:-/repo}/go.sum" harness/go.sum
 (cd harness && go build -tags verif -o bin/pcvh ./cmd/pcvh)
 (cd lean && lake build PCV pcvdriver)
